@@ -145,6 +145,19 @@ def gen_firewall():
                 hooks = sorted(x.name for x in node.body if isinstance(x, (ast.FunctionDef, ast.AsyncFunctionDef)) and x.name in hook_names)
                 if hooks:
                     hook_defs.append((pl, name, hooks))
+    # SocketDriver.setTimeout: the connected socket must keep a finite timeout (settimeout(None) = blocking mode:
+    # a recv() with nothing to read would never return and drivers.run() would hang for every network)
+    st_fn = find_func(sock, 'setTimeout', cls='SocketDriver')
+    blocking = False; found = False
+    for n in ast.walk(sock):
+        if isinstance(n, ast.Call) and isinstance(n.func, ast.Attribute) and n.func.attr in ('settimeout', 'setblocking') and n.args:
+            found = True
+            a0 = n.args[0]
+            if n.func.attr == 'settimeout' and isinstance(a0, ast.Constant) and a0.value is None: blocking = True
+            if n.func.attr == 'setblocking' and isinstance(a0, ast.Constant) and a0.value: blocking = True
+    if not found: raise ExtractionError('SocketDriver: no settimeout call found')
+    # _read performs exactly one recv per call
+    recvs = [n for n in ast.walk(rd) if isinstance(n, ast.Call) and isinstance(n.func, ast.Attribute) and n.func.attr == 'recv']
     body = ('namespace Gen\n\n'
             '/-- irclib.Irc.__firewalled__: (method, has an error handler) -/\n'
             'def ircFirewalled : List (String × Bool) :=\n  %s\n\n'
@@ -169,6 +182,8 @@ def gen_firewall():
             'def readCatches : List String := %s\n\n'
             '/-- functions of the read/write path containing a log call whose message is formatted before the call -/\n'
             'def preformattedLogCalls : List String := %s\n\n'
+            '/-- some settimeout(None)/setblocking(True) in the socket driver; number of recv() calls in _read -/\n'
+            'def socketMayBlock : Bool := %s\ndef readRecvCalls : Nat := %d\n\n'
             '/-- callbacks.Commands.__firewalled__ -/\n'
             'def commandsFirewalled : List (String × Bool) :=\n  %s\n\n'
             '/-- every plugin class of plugins/*/plugin.py that overrides a hook named in a __firewalled__ map: (plugin, class, hooks) -/\n'
@@ -180,6 +195,7 @@ def gen_firewall():
         llist('(%s, %s)' % (lstring(a), lstring(b)) for a, b in regions),
         'true' if unprotected_dispatch else 'false', lstring(errors), llist(lstring(x) for x in read_catches),
         llist(lstring(x) for x in sorted(set(preformatted))),
+        'true' if blocking else 'false', len(recvs),
         _lean_pairs(commands_fw),
         llist('(%s, %s, %s)' % (lstring(a), lstring(b), llist(lstring(h) for h in hs)) for a, b, hs in hook_defs))
     write_if_changed('Firewall.lean', body, 'src/irclib.py, src/log.py, src/drivers/__init__.py, src/drivers/Socket.py')
